@@ -16,8 +16,9 @@ import vlib
 SPEC = os.path.join(vlib.SPECS, "ProdProto")
 CACHE = os.path.join(vlib.WORK, "cache", "prod")
 
-SA_QUICK = ["SA_bls_q5.cfg", "SA_schnorr_q5_pairs.cfg", "SA_schnorr_q5_triples.cfg", "SA_l17_q7.cfg", "SA_l17_q5_smallN.cfg", "SA_dkls_q5_quick.cfg"]
-SA_THOROUGH = SA_QUICK + ["SA_bls_q7.cfg", "SA_schnorr_q7.cfg", "SA_l17_q5.cfg", "SA_dkls_q5_triples.cfg", "SA_dkls_q5_pairs.cfg", "SA_dkls_q7_pairs.cfg"]
+# every configuration spends one to two minutes evaluating its constants (span programmes, coefficient tables) before the first state
+SA_QUICK = ["SA_bls_q5.cfg", "SA_schnorr_q5_pairs.cfg", "SA_l17_q7.cfg", "SA_dkls_q5_quick.cfg"]
+SA_THOROUGH = SA_QUICK + ["SA_schnorr_q5_triples.cfg", "SA_l17_q5_smallN.cfg", "SA_bls_q7.cfg", "SA_schnorr_q7.cfg", "SA_l17_q5.cfg", "SA_dkls_q5_triples.cfg", "SA_dkls_q5_pairs.cfg", "SA_dkls_q7_pairs.cfg"]
 
 
 def key_of(row):
@@ -213,16 +214,16 @@ def run_sign(chk):
                             "verify_other_lib": e["verify_other_lib"], "indep": e.get("indep")}, cap=8)
                 break
     q = chk.quick
-    plan = [("dkls", plain, False, "sign:dkls23", 4 if q else 12),
-            ("l17", test, True, "sign:lindell17", 2 if q else 6),
-            ("l22", plain, False, "sign:lindell22", 3 if q else 3),
+    plan = [("dkls", plain, False, "sign:dkls23", 6 if q else 12),
+            ("l17", test, True, "sign:lindell17", 3 if q else 6),
+            ("l22", plain, False, "sign:lindell22", 4 if q else 4),
             ("bls", plain, False, "sign:bls", 5 if q else 8),
             ("cggmp", test, True, "sign:cggmp21", 2 if q else 6)]
     tasks = []
     big = [] if q else SA_THOROUGH[-4:]            # the four multi-million-state configurations start first, the small ones fill the tail
     mc_first, mc_last = [], []
     for cfg in (SA_QUICK if q else SA_THOROUGH):
-        (mc_first if cfg in big else mc_last).append(("mc:" + cfg, (lambda cfg=cfg: vlib.tlc(SPEC, "SignAlgebraMC", cfg, workers=2 if q else 3, timeout=3400, deadlock=True,
+        (mc_first if cfg in big else mc_last).append(("mc:" + cfg, (lambda cfg=cfg: vlib.tlc(SPEC, "SignAlgebraMC", cfg, workers=1 if q else 3, timeout=3400, deadlock=True,
                                                              rundir=vlib.scratch(chk.prop, "mc-" + cfg.replace(".cfg", ""))))))
     tasks += mc_first
     for tag, binary, tm, only, parts in plan:
